@@ -11,6 +11,7 @@ pub fn build(family: &str, rng: &mut Rng, index: u64) -> Option<Plan> {
 		"F2p" => f2p(index),
 		"F2n" => f2n(index),
 		"F2q" => f2q(index),
+		"F2m" => f2m(index),
 		"F2" => f2(index),
 		"F2b" => f2b(index),
 		"F2h" => f2h(index),
@@ -22,6 +23,7 @@ pub fn build(family: &str, rng: &mut Rng, index: u64) -> Option<Plan> {
 		"F4c" => f4c(index),
 		"F4t" => f4t(index),
 		"F4u" => f4u(index),
+		"F1p" => f1p(index),
 		"F1o" => f1o(index),
 		"F1s" => f1s(index),
 		// issuance swarm: standard hooks (C01/C04/C05/C13) and generated hook tables (C10)
@@ -1278,5 +1280,71 @@ fn f4u(index: u64) -> Option<Plan> {
 		},
 	];
 	p.note = format!("F4u unreadable certificate file kind {}, {} other certificates, span {}", g[0], n - 1, g[2]);
+	Some(p)
+}
+
+/// F2m: one request answered by a run of recoverable errors of TWO different types (the retry
+/// budget is per request, not per error type): every POST position x 5 ordered pairs of
+/// recoverable types x 6 patterns (9+1, 5+5, alternating x12, 4+4 then success, 9+2, 1+9).
+fn f2m(index: u64) -> Option<Plan> {
+	let pairs = [
+		("serverInternal", "badNonce"),
+		("badNonce", "serverInternal"),
+		("rateLimited", "malformed"),
+		("connection", "tls"),
+		("dns", "badNonce"),
+	];
+	let g = grid(index, &[POST_POSITIONS.len() as u64, pairs.len() as u64, 6])?;
+	let (class, nth) = POST_POSITIONS[g[0] as usize];
+	let (a, b) = pairs[g[1] as usize];
+	// (type index, run length) segments
+	let pattern: Vec<(usize, u64)> = match g[2] {
+		0 => vec![(0, 9), (1, 1)],
+		1 => vec![(0, 5), (1, 5)],
+		2 => (0..12).map(|i| (i % 2, 1)).collect(),
+		3 => vec![(0, 4), (1, 4)],
+		4 => vec![(0, 9), (1, 2)],
+		_ => vec![(0, 1), (1, 9)],
+	};
+	let mut p = grid_base(0, 1);
+	let mut at = nth;
+	for (which, len) in pattern.iter() {
+		let typ = if *which == 0 { a } else { b };
+		p.faults.push(Fault {
+			site: "net".into(),
+			ca: 0,
+			class: class.into(),
+			nth: at,
+			count: *len,
+			kind: FaultKind::Acme {
+				typ: typ.to_string(),
+				status: status_for(typ, index),
+				detail: Some(format!("injected {}", typ)),
+			},
+			..Default::default()
+		});
+		at += len;
+	}
+	p.note = format!("F2m {}#{} x {}/{} x pattern {}", class, nth, a, b, g[2]);
+	Some(p)
+}
+
+/// F1p: pending authorizations whose challenges are not all `pending`: the challenge of the
+/// configured type (or another one) is shown as `processing` or `valid` while the authorization is
+/// still pending; 3 challenge types x 4 status patterns x 3 challenge orders x 2 authorization orders.
+fn f1p(index: u64) -> Option<Plan> {
+	let g = grid(index, &[3, 4, 3, 2])?;
+	let mut p = grid_base(0, 1);
+	let ty = ["http-01", "dns-01", "tls-alpn-01"][g[0] as usize];
+	p.config.certificates[0].identifiers = vec![ident("a.status.sim", ty), ident("b.status.sim", "dns-01")];
+	p.cas[0].knobs.chall_status = match g[1] {
+		0 => vec!["processing".into()],
+		1 => vec!["valid".into()],
+		2 => vec!["".into(), "processing".into()],
+		_ => vec!["processing".into(), "".into(), "valid".into()],
+	};
+	p.cas[0].knobs.chall_order = ["as_requested", "reversed", "shuffled"][g[2] as usize].into();
+	p.cas[0].knobs.authz_order = ["as_requested", "reversed"][g[3] as usize].into();
+	p.note = format!("F1p {} pattern {} chall order {} authz order {}", ty, g[1], g[2], g[3]);
 	Some(p)
 }
